@@ -15,7 +15,7 @@ from checks import common
 
 PID = "C18"
 MENU = ["holidays_fr", "holidays_us", "country_from_coords", "tz_from_coords", "ctx_from_coords", "easter", "plain_shared", "plain_clone",
-        "normalize", "clone_ctx_switch", "clone_locale_switch", "interleave_exprs"]
+        "normalize", "clone_ctx_switch", "clone_locale_switch", "interleave_exprs", "shared_walk"]
 
 
 def run_skeleton(skel, jitter):
@@ -54,6 +54,13 @@ def run(tier, corrupt=0):
         ref[e["call"]] = e["digest"]
     if any(v.startswith("PANIC") or v.startswith("PROCESS-CRASH") for v in ref.values()):
         raise vlib.ToolError("the sequential reference run failed: %s" % {k: v[:80] for k, v in ref.items()})
+    # every call alone in a fresh process of its own: the sequential run (all calls one after the other) must agree with it
+    with cf.ThreadPoolExecutor(max_workers=6) as ex:
+        alone = list(ex.map(lambda call: run_skeleton([[call]], 0), MENU))
+    for call, events in zip(MENU, alone):
+        if events[0]["digest"] != ref.get(call):
+            c.mismatch("a call answers differently after other calls than alone in a fresh process: %s" % call,
+                       {"call": call, "alone": events[0]["digest"][:300], "after_others": (ref.get(call) or "")[:300]})
     ref_seq = [{"call": k, "digest": v} for k, v in sorted(ref.items())]
     with cf.ThreadPoolExecutor(max_workers=6) as ex:
         results = list(ex.map(lambda ks: run_skeleton(ks[1], c.seed * 7919 + ks[0]), enumerate(chosen)))
